@@ -388,6 +388,14 @@ Run(sm, bytes, i) ==
        IN IF c = EOFC /\ ~s1.re THEN [s1 EXCEPT !.done = TRUE]
           ELSE Run(s1, bytes, IF s1.re THEN i ELSE i + 1 + s1.skip)
 
+\* the machine after a prefix of the document (no EOF): used to say what is still undecided
+RECURSIVE RunPrefix(_, _, _)
+RunPrefix(sm, bytes, i) ==
+  IF sm.done \/ i > Len(bytes) THEN sm
+  ELSE LET s1 == Step([sm EXCEPT !.re = FALSE, !.skip = 0], bytes, i, bytes[i])
+       IN RunPrefix(s1, bytes, IF s1.re THEN i ELSE i + 1 + s1.skip)
+AfterPrefix(bytes, fb, strict) == RunPrefix(InitSm(fb, strict, "Data", <<>>, FALSE), bytes, 1)
+
 Tokenize(bytes, fb, strict) == Run(InitSm(fb, strict, "Data", <<>>, FALSE), bytes, 1)
 TokenizeFrom(bytes, fb, strict, tt0, last0, cdata0) == Run(InitSm(fb, strict, tt0, last0, cdata0), bytes, 1)
 
